@@ -67,6 +67,27 @@ type Case struct {
 	Endless     bool // the reader repeats the data blocks forever
 	TruncateAt  int  // >0: cut the stream inside data block TruncateAt-1 (0 = intact)
 	TruncBytes  int  // how many bytes of that block remain (clamped)
+	// ReadErr: what the reader returns at the end of truncated input:
+	// 0 io.EOF, 1 a transport error, 2 a transport error that wraps io.EOF.
+	ReadErr int
+	// Headerless: the stream starts at the first data block (a scan resumed
+	// at FullyScannedBytes).
+	Headerless bool
+}
+
+var (
+	errTransport    = errors.New("transport: connection reset")
+	errTransportEOF = fmt.Errorf("transport: stream reset by peer: %w", io.EOF)
+)
+
+func readErr(kind int) error {
+	switch kind {
+	case 1:
+		return errTransport
+	case 2:
+		return errTransportEOF
+	}
+	return nil
 }
 
 type countingReader struct {
@@ -79,6 +100,7 @@ type countingReader struct {
 	// has reached hookAt (used to cancel while a Scan is in progress)
 	hookAt int
 	hook   func()
+	endErr error // returned instead of io.EOF at the end of the data
 }
 
 func (r *countingReader) Read(p []byte) (int, error) {
@@ -89,6 +111,9 @@ func (r *countingReader) Read(p []byte) (int, error) {
 	}
 	if r.pos >= len(r.data) {
 		if r.loopFrom < 0 {
+			if r.endErr != nil {
+				return 0, r.endErr
+			}
 			return 0, io.EOF
 		}
 		r.pos = r.loopFrom
@@ -218,9 +243,17 @@ func run(c Case) error {
 			maxBlock = l
 		}
 	}
+	base := 0 // offset of the stream's first byte in the encoded file
+	if c.Headerless {
+		base = enc.Header.End
+		data = data[base:]
+	}
 	r := &countingReader{data: data, loopFrom: -1, chunk: c.Chunk}
 	if c.Endless {
-		r.loopFrom = enc.Header.End
+		r.loopFrom = enc.Header.End - base
+	}
+	if truncated {
+		r.endErr = readErr(c.ReadErr)
 	}
 	wantAt := func(i int) osm.Object {
 		if c.Endless {
@@ -234,7 +267,7 @@ func run(c Case) error {
 	s := osmpbf.New(ctx, r, c.Procs)
 	defer s.Close()
 
-	if c.HeaderFirst {
+	if c.HeaderFirst && !c.Headerless {
 		if _, err := s.Header(); err != nil {
 			return harness.Failf("C07/header", "Header() failed: %v", err)
 		}
@@ -315,6 +348,9 @@ func run(c Case) error {
 			if earlier == nil {
 				return harness.Failf("C07/truncation-silent", "truncated input scanned to its end without an error")
 			}
+			if want := readErr(c.ReadErr); want != nil && earlier.Error() != want.Error() && !errors.Is(earlier, want) {
+				return harness.Failf("C07/read-error-lost", "the reader failed with %q, Err() reports %v", want, earlier)
+			}
 		} else if earlier != nil {
 			return harness.Failf("C07/error-on-complete-scan", "complete scan of valid input reports %v", earlier)
 		}
@@ -371,6 +407,14 @@ func run(c Case) error {
 			allowed = []error{context.Canceled}
 		default:
 			return nil
+		}
+		if truncated && c.Headerless && c.TruncateAt == 1 && k == 0 {
+			// the scanner was stopped before it was started: the first Scan after
+			// the stop starts it, which reads the first blob (as it reads the header
+			// of an ordinary file) and records that blob's error
+			if got != nil {
+				return nil
+			}
 		}
 		if stop == stopCancelAsync && !c.Endless && delivered >= total && !truncated {
 			// every object was delivered: the scan may have observed the end of the
@@ -441,15 +485,15 @@ func run(c Case) error {
 	// ---- promptness: the stop does not consume the rest of the input
 	if closedCalled || cancelled {
 		after := atomic.LoadInt64(&r.count)
-		lastOff := int64(enc.Header.End)
+		lastOff := int64(enc.Header.End - base)
 		if delivered > 0 && !c.Endless {
-			lastOff = int64(enc.Blocks[blockOf[min(delivered, len(blockOf))-1]].End)
+			lastOff = int64(enc.Blocks[blockOf[min(delivered, len(blockOf))-1]].End - base)
 		}
 		allowance := int64(3*c.Procs+30) * int64(maxBlock+8)
 		if c.Endless {
 			// measured in objects: bytes read vs bytes needed for what was delivered
 			per := int64(len(enc.Data)-enc.Header.End) / int64(len(want)) // >= bytes per object on average
-			lastOff = int64(enc.Header.End) + (int64(delivered)+1)*(per+1)
+			lastOff = int64(enc.Header.End-base) + (int64(delivered)+1)*(per+1)
 		}
 		bound := lastOff + allowance
 		if !c.Endless && bound >= int64(len(data)) {
@@ -479,6 +523,15 @@ func run(c Case) error {
 	}
 	if truncated {
 		last.classes = append(last.classes, "truncated-input")
+		if r.endErr != nil {
+			last.classes = append(last.classes, "reader-fails-with-error")
+		}
+	}
+	if c.Headerless {
+		last.classes = append(last.classes, "headerless-start")
+		if k == 0 && stop != stopNone {
+			last.classes = append(last.classes, "headerless-stopped-before-first-scan")
+		}
 	}
 	if c.Endless {
 		last.classes = append(last.classes, "endless-input")
@@ -489,7 +542,7 @@ func run(c Case) error {
 func TestPBFStop(t *testing.T) {
 	harness.Run(t, harness.Spec[Case]{
 		Name: "pbf-stop", N: 200,
-		Rule: "call histories drawn by rapid and executed against osmpbf.Scanner on a 60..500-block file behind a counting, chunking reader (20% endless input, 15% truncated input): optional Header, k successful Scans (k from 0 to beyond the end), then Close / cancel from the scanning goroutine / cancel from a second goroutine after a drawn delay / nothing, then a drawn sequence of Scan, Err, Close, FullyScannedBytes, Header calls; procs in {1,2,4,11,32}; oracle = model of the statement (objects before the stop follow the file; every Scan after the stop is false; Err = earlier error > scanner-closed / context error (either when both apply) > nil only after a complete scan), bytes pulled from the reader bounded by the last delivered block + (3*procs+30) blocks of read-ahead and no read after Close returned, no goroutine in osmpbf frames 3 s after the stop, no call blocked for 20 s, zero race reports (-race, halt_on_error); non-trivial = the stop lands strictly between the first object and the end of input",
+		Rule: "call histories drawn by rapid and executed against osmpbf.Scanner on a 60..500-block file behind a counting, chunking reader (20% endless input, 15% truncated input whose reader ends with io.EOF, a transport error, or a transport error wrapping io.EOF; a quarter of the streams start at the first data block as a resumed scan does, a third of those stopped before the first Scan): optional Header, k successful Scans (k from 0 to beyond the end), then Close / cancel from the scanning goroutine / cancel from a second goroutine after a drawn delay / nothing, then a drawn sequence of Scan, Err, Close, FullyScannedBytes, Header calls; procs in {1,2,4,11,32}; oracle = model of the statement (objects before the stop follow the file; every Scan after the stop is false; Err = earlier error > scanner-closed / context error (either when both apply) > nil only after a complete scan), bytes pulled from the reader bounded by the last delivered block + (3*procs+30) blocks of read-ahead and no read after Close returned, no goroutine in osmpbf frames 3 s after the stop, no call blocked for 20 s, zero race reports (-race, halt_on_error); non-trivial = the stop lands strictly between the first object and the end of input",
 		Gen: func(t *rapid.T) Case {
 			c := Case{}
 			nt := rapid.IntRange(1, 5).Draw(t, "ntemplates")
@@ -520,6 +573,13 @@ func TestPBFStop(t *testing.T) {
 			case 4, 5, 6:
 				c.TruncateAt = rapid.IntRange(1, c.NBlocks).Draw(t, "truncAt")
 				c.TruncBytes = rapid.IntRange(0, 1000).Draw(t, "truncBytes")
+				c.ReadErr = rapid.IntRange(0, 2).Draw(t, "readErr")
+			}
+			if rapid.IntRange(0, 3).Draw(t, "headerless") == 0 {
+				c.Headerless = true
+				if rapid.IntRange(0, 2).Draw(t, "beforeFirstScan") == 0 {
+					c.K = 0
+				}
 			}
 			return c
 		},
@@ -527,7 +587,7 @@ func TestPBFStop(t *testing.T) {
 		Classify: func(c Case) (bool, []string) { return last.nontrivial, last.classes },
 		Describe: func(c Case) any {
 			return map[string]any{"blocks": c.NBlocks, "templates": len(c.Templates), "procs": c.Procs, "header_first": c.HeaderFirst, "k": c.K,
-				"stop": []string{"close", "cancel-sync", "cancel-async", "none"}[c.Stop], "async_delay": c.AsyncDelay, "after_ops": c.After, "chunk": c.Chunk, "endless": c.Endless, "truncate_at": c.TruncateAt}
+				"stop": []string{"close", "cancel-sync", "cancel-async", "none"}[c.Stop], "async_delay": c.AsyncDelay, "after_ops": c.After, "chunk": c.Chunk, "endless": c.Endless, "truncate_at": c.TruncateAt, "read_err": c.ReadErr, "headerless": c.Headerless}
 		},
 		Floors:   map[string]float64{"stop-mid-scan": 0.5, "cancel-async": 0.2, "promptness-bound-effective": 0.3},
 		Inflight: true,
@@ -550,6 +610,7 @@ type XCase struct {
 	Filler         int
 	FillerAfter    int
 	CancelInFiller bool
+	ReadErr        int // with CutAt: what the reader returns at the cut (see Case.ReadErr)
 }
 
 func xmlDoc(n int) ([]byte, []int) { d, e, _ := xmlDocFiller(n, 0, 0); return d, e }
@@ -669,6 +730,9 @@ func checkXML(c XCase) error {
 		}
 	}
 	r := &countingReader{data: doc, loopFrom: -1, chunk: c.Chunk}
+	if truncated {
+		r.endErr = readErr(c.ReadErr)
+	}
 	ctx, cancel := context.WithCancel(context.Background())
 	defer cancel()
 	s := osmxml.New(ctx, r)
@@ -790,6 +854,9 @@ func checkXML(c XCase) error {
 	}
 	if truncated {
 		lastX.classes = append(lastX.classes, "truncated-input")
+		if r.endErr != nil {
+			lastX.classes = append(lastX.classes, "reader-fails-with-error")
+		}
 	}
 	return nil
 }
@@ -797,7 +864,7 @@ func checkXML(c XCase) error {
 func TestXMLStop(t *testing.T) {
 	harness.Run(t, harness.Spec[XCase]{
 		Name: "xml-stop", N: 1000,
-		Rule: "the same call-history machine against osmxml.Scanner on documents of 1..400 elements (20% truncated, a third with a 2-200 KB stretch of comments/unknown elements): k Scans, Close / cancel / nothing, or cancellation from a second goroutine issued from inside Read while Scan is skipping that stretch (Scan must stop there, Err = context canceled, bounded further reads), then Scan/Err/Close calls; oracle = same Err precedence model, every Scan after the stop false, no read from the reader after the stop, bytes read bounded by the last delivered element + decoder buffering; non-trivial = stop strictly inside the document",
+		Rule: "the same call-history machine against osmxml.Scanner on documents of 1..400 elements (20% truncated - the reader ending with io.EOF, a transport error, or a transport error wrapping io.EOF -, a third with a 2-200 KB stretch of comments/unknown elements): k Scans, Close / cancel / nothing, or cancellation from a second goroutine issued from inside Read while Scan is skipping that stretch (Scan must stop there, Err = context canceled, bounded further reads), then Scan/Err/Close calls; oracle = same Err precedence model, every Scan after the stop false, no read from the reader after the stop, bytes read bounded by the last delivered element + decoder buffering; non-trivial = stop strictly inside the document",
 		Gen: func(t *rapid.T) XCase {
 			c := XCase{N: rapid.IntRange(1, 400).Draw(t, "n")}
 			c.K = rapid.IntRange(0, c.N+2).Draw(t, "k")
@@ -806,6 +873,7 @@ func TestXMLStop(t *testing.T) {
 			c.Chunk = rapid.SampledFrom([]int{0, 1, 13, 512}).Draw(t, "chunk")
 			if rapid.IntRange(0, 4).Draw(t, "cut?") == 0 {
 				c.CutAt = rapid.IntRange(1, 1<<20).Draw(t, "cut")
+				c.ReadErr = rapid.IntRange(0, 2).Draw(t, "readErr")
 			}
 			if rapid.IntRange(0, 2).Draw(t, "filler?") == 0 {
 				c.Filler = rapid.SampledFrom([]int{2000, 20000, 200000}).Draw(t, "filler")
